@@ -218,6 +218,11 @@ func (st *c15State) peer(conn *VConn) {
 			}
 		}
 		switch {
+		case id < 0 && m.Type == rpc.TypeError:
+			// the frame of a request that the client has already failed (replyError rewrote the queued *Message into
+			// an error message) was still transmitted by the write goroutine
+			bad("ERRFRAME: the client transmitted a TypeError frame (seq=%d off=%d size=%d payload=%q): a request that had already been failed towards its caller was rewritten in place by replyError while still queued in Client.send and then put on the wire", m.Seq, m.Offset, m.Size, string(m.Data))
+			return true
 		case id < 0:
 			bad("unknown request frame type=%d off=%d size=%d len=%d", m.Type, m.Offset, m.Size, len(m.Data))
 			return true
@@ -425,6 +430,10 @@ func (st *c15State) judge(earlyTimer bool) *Outcome {
 		viol("spurious-poison", "-", "client poisoned (%v) although nothing failed", rpc.VerifClientErr(st.client))
 	}
 	for _, b := range st.peerBad {
+		if strings.HasPrefix(b, "ERRFRAME: ") {
+			out.Violations = append(out.Violations, Viol{Oracle: "request-mangled", Sig: "request-mangled:failed-request-sent-as-error-frame", Detail: strings.TrimPrefix(b, "ERRFRAME: ")})
+			continue
+		}
 		viol("request-mangled", "-", "%s", b)
 	}
 	var leaks []string
